@@ -70,7 +70,6 @@ inductive Drop where
 
 inductive RaiseKind where
   | unknownError   -- WatchingError (an ERROR event that is not 410)
-  | gone           -- APIClientError 410 on the watch request (no longer raised since kopf e006454; kept for the driver's vocabulary)
   | fatal          -- other APIError out of a request
   | garbage        -- a line that is not JSON (ValueError out of `api.stream`)
   deriving DecidableEq, Repr
